@@ -43,9 +43,15 @@ func main() {
 	prop := flag.String("prop", "", "property id (C01..C20) or 'all'")
 	tier := flag.String("tier", "quick", "quick|thorough")
 	replay := flag.String("replay", "", "replay file")
+	dump := flag.String("dump", "", "debug: dump paths of pkg:Func")
+	dumpCfg := flag.String("cfg", "amd64-default", "configuration for -dump")
 	flag.Parse()
 	if env := os.Getenv("VERIF_TIER"); env != "" && *tier == "" {
 		*tier = env
+	}
+	if *dump != "" {
+		dumpPaths(*dump, *dumpCfg)
+		return
 	}
 	if *replay != "" {
 		b, err := os.ReadFile(*replay)
